@@ -30,7 +30,7 @@
      kh_binds, collision-freeness    cryptographic, stated on the finite world / on the one pair. *)
 From Verif Require Import Exec Ser Spend Ast Types TypeCheck SatSpec Sat LiftModel LiftLimits TheoremA SatProofs FrameDissat
   CompleteThresh CompleteNonMall DenotSpec LiftFullProofs CodecSpec.
-From Verif Require Import DescSpendModel LiftDescWsh LiftDescWorld LiftDescTypes LiftDescWorldTypes LiftDescWorldTap LiftDescExamples LiftDescTypesEx LiftDescTapEx.
+From Verif Require Import DescSpendModel LiftDescWsh LiftDescWorld LiftDescTypes LiftDescWorldTypes LiftDescWorldTap LiftDescSsig LiftDescExamples LiftDescTypesEx LiftDescTapEx.
 From Verif Require DescSpendExamples.
 From Verif Require SerProofs.
 From Verif Require CodecExt ExtModel ExtProofs ExtCodec.
@@ -509,3 +509,68 @@ Example C07_tr_leaf_validation_by_evaluation :
   verify_spend tx_e tx_commit (spk_tr tx_outkey) [] ([tx_sig 1; []] ++ [encode tx_ke tx_m; tx_cb]) = true /\
   verify_tr tx_e tx_outkey tx_commit [] ([[]; []] ++ [encode tx_ke tx_m; tx_cb]) = false.
 Proof. exact tx_verify. Qed.
+
+(* ---- P2SH, unconditional since /repo e37a8a3d (Proofs/LiftDescSsig.v): the 1650-byte scriptSig rule is
+   DERIVED.  The repaired Legacy verdict bounds max_script_sig_size + pk_cost + push_opcode_size(pk_cost);
+   C09 wit_bounds_root bounds the nominal size of the satisfier's placeholders by max_script_sig_size;
+   the BYTES witness_to_scriptsig emits for the items are at most that nominal size, and the last push is
+   the redeem script, whose length is pk_cost.  One new named hypothesis: the satisfier's key-size constant
+   covers each key's push, [blen (kb ke k) + 1 <= se_pklen se k] (Ctx::pk_len is 34 / 66 for 33- / 65-byte
+   keys).  These subsume C07_sh_invents_no_path_partial / C07_sh_dispatch_invents_no_path_partial, which
+   are kept (they hold for every verdict rule, the pre-repair one included).  Bare stays partial: the
+   library's Bare context has no scriptSig test at all. ---- *)
+Theorem C07_sh_invents_no_path_within_limits :
+  forall (e : env) (ke : keyenv), ksort_ok ke -> (forall kbs, e_sigok e kbs [] = false) ->
+  forall (A : assets) (se : senv) (f : fill), linked ke A se f -> locks_compatible se ->
+  forall (unc : key -> bool) (rhs : bool) (m : ms) (t : ty) (p : lpolicy),
+    type_of m = ROk t -> c_base (t_corr t) = BB ->
+    assets_ok (with_sv e SvBase) ke A -> wf (with_sv e SvBase) ke m ->
+    unc_agrees ke unc -> thresh_fit ke se rhs m ->
+    material_all sbytes ke A -> material_all (fun b => blen b < 73) ke A ->
+    leval A p = true ->
+    ms_wf Legacy ke m -> ExtCodec.ctx_frag_ok Legacy m = true ->
+    ExtProofs.senv_ok (ExtCodec.xctx_of Legacy ke) se ->
+    (forall k, blen (kb ke k) + 1 <= se_pklen se k) ->
+    sbytes (encode ke m) ->
+    lift_ctx Legacy unc m = LOk p ->
+    exists bs ss, satisfy ke se f true rhs m = Some bs /\ witness_to_scriptsig (bs ++ [encode ke m]) = Some ss /\
+      verify_sh e (e_hash160 e (encode ke m)) (serialize ss) [] = true.
+Proof. exact sh_invents_no_path_within_limits. Qed.
+Print Assumptions C07_sh_invents_no_path_within_limits.
+
+Theorem C07_sh_dispatch_invents_no_path_within_limits :
+  forall (e : env) (ke : keyenv), ksort_ok ke -> (forall kbs, e_sigok e kbs [] = false) ->
+  forall (A : assets) (se : senv) (f : fill), linked ke A se f -> locks_compatible se ->
+  forall (unc : key -> bool) (rhs : bool) (m : ms) (t : ty) (p : lpolicy),
+    type_of m = ROk t -> c_base (t_corr t) = BB ->
+    assets_ok (with_sv e SvBase) ke A -> wf (with_sv e SvBase) ke m ->
+    unc_agrees ke unc -> thresh_fit ke se rhs m ->
+    material_all sbytes ke A -> material_all (fun b => blen b < 73) ke A ->
+    leval A p = true ->
+    ms_wf Legacy ke m -> ExtCodec.ctx_frag_ok Legacy m = true ->
+    ExtProofs.senv_ok (ExtCodec.xctx_of Legacy ke) se ->
+    (forall k, blen (kb ke k) + 1 <= se_pklen se k) ->
+    sbytes (encode ke m) ->
+    lift_ctx Legacy unc m = LOk p ->
+  forall commit_ok : bytes -> bytes -> bool,
+    blen (e_hash160 e (encode ke m)) = 20 ->
+    exists bs ss, satisfy ke se f true rhs m = Some bs /\ witness_to_scriptsig (bs ++ [encode ke m]) = Some ss /\
+      verify_spend e commit_ok (spk_sh e (encode ke m)) (serialize ss) [] = true.
+Proof. exact sh_dispatch_invents_within_limits. Qed.
+Print Assumptions C07_sh_dispatch_invents_no_path_within_limits.
+
+(* the bytes of the scriptSig against C09's nominal figure (the lemma the derivation rests on) *)
+Theorem C07_scriptsig_bytes_le_figure :
+  forall (e : env) (ke : keyenv) (A : assets) (se : senv) (f : fill),
+    linked ke A se f -> assets_ok e ke A -> se_tap se = false ->
+    (forall k, blen (kb ke k) + 1 <= se_pklen se k) ->
+    material_all sbytes ke A -> material_all (fun b => blen b < 73) ke A ->
+  forall (l : list ph) (bs : list bytes) (sb : bytes) (ss : script),
+    fill_all f l = Some bs -> sbytes sb -> witness_to_scriptsig (bs ++ [sb]) = Some ss ->
+    blen (serialize ss) <= ExtProofs.ssig_sum se l + blen sb + ExtModel.push_opcode_size (blen sb).
+Proof. exact scriptsig_bytes_le. Qed.
+Print Assumptions C07_scriptsig_bytes_le_figure.
+
+(* non-vacuity: C01's example world also satisfies the new hypothesis (33-byte keys, pk_len 34) *)
+Example C07_legacy_keys_covered : forall k, blen (kb ex_ke k) + 1 <= se_pklen (ex_se false) k.
+Proof. intros k. vm_compute. discriminate. Qed.
